@@ -613,25 +613,7 @@ Theorem C05_model_is_source {F : Type} {o : Ops F} {Fc : FieldC o} (c : @PEcfg F
   combined_u c inc_va x rt k = combined_u_moist_src c inc_va x q rt k /\
   combined_v c inc_va x rt k = combined_v_moist_src c inc_va x q rt k /\
   temp_adiabatic_moist c m x q k = temp_adiabatic_moist_src c m x q k.
-Proof.
-  split; [apply u_dot_grad_matches_source|].
-  split; [apply t_omega_matches_source|].
-  split; [apply (combined_matches_source c inc_va x k)|].
-  split; [apply (combined_matches_source c inc_va x k)|].
-  split; [apply kinetic_matches_source|].
-  split; [apply temp_vertical_tendency_matches_source|].
-  split; [apply (hsa_matches_source x s k)|].
-  split; [apply (hsa_matches_source x s k)|].
-  split; [apply (hsa_matches_source x s k)|].
-  split; [apply temp_adiabatic_matches_source|].
-  split; [apply log_pressure_tendency_matches_source|].
-  split; [apply (rt_moist_matches_source c m x q k)|].
-  split; [apply (rt_moist_matches_source c m x q k)|].
-  split; [apply rt_cloud_matches_source|].
-  split; [apply (combined_moist_matches_source c inc_va x q rt k)|].
-  split; [apply (combined_moist_matches_source c inc_va x q rt k)|].
-  apply temp_adiabatic_moist_matches_source.
-Qed.
+Proof. exact (primeq_model_is_source c m inc_va x Tf g vg s q qc qi rt k). Qed.
 
 Theorem C05_gen_primeq_complete : gen_primeq_ok = true.
 Proof. exact gen_primeq_complete. Qed.
